@@ -2601,6 +2601,36 @@ func ruleLoadPollsCtx(c *Ctx, r *Report) {
 					polled = true
 				}
 			})
+			// (with fix F56) ... and before the first clause is asked for: an empty text, too, is "the pending call"
+			if polled {
+				more := c.method("Parser", "More")
+				first := true
+				eachInstr(fn, func(x ssa.Instruction) {
+					rc, ok := x.(*ssa.Call)
+					if !ok || (rc.Call.StaticCallee() != more && rc.Call.StaticCallee() != term) {
+						return
+					}
+					dominated := false
+					eachInstr(fn, func(y ssa.Instruction) {
+						ci, ok := y.(ssa.CallInstruction)
+						if !ok || !ci.Common().IsInvoke() || (ci.Common().Method.Name() != "Err" && ci.Common().Method.Name() != "Done") || !isNamedIn(ci.Common().Value.Type(), "context", "Context") {
+							return
+						}
+						yb, xb := y.Block(), x.Block()
+						if (yb == xb && instrIndex(y) < instrIndex(x)) || (yb != xb && yb.Dominates(xb)) {
+							dominated = true
+						}
+					})
+					if !dominated {
+						first = false
+					}
+				})
+				if first {
+					r.ok(rule, key+"/before-first-read", c.at(in), "the context is observed before the first clause of a text is asked for", "a ctx.Err()/Done() call dominates every More/Term call", true)
+				} else {
+					r.bad(rule, key+"/before-first-read", c.at(in), "the context is observed before the first clause of a text is asked for", "the parser is asked for a clause on a path that has not looked at the context: an empty text returns nil under a cancelled context")
+				}
+			}
 			if polled {
 				r.ok(rule, key, c.at(in), desc, "ctx.Err()/Done() is called inside the loop", true)
 			} else {
